@@ -907,6 +907,18 @@ fn refine_owner(w: &World, h: usize, path: &str, loc: bool, owner: &'static str,
     }
 }
 
+/// a wrong mapping of a localized operation violates C14 ("all operations apply the same
+/// mapping") and equally the running property's own clause about localized access
+/// (C12: "with the same localisation choice"; C13: "a localized listing equals ..."):
+/// the running check reports it under its own id
+fn dual(ctx: &RunCtx, refined: &'static str, default: &'static str) -> &'static str {
+    if refined == "C14" && ctx.prop == default {
+        default
+    } else {
+        refined
+    }
+}
+
 fn single_component_file_op(path: &str, loc: bool) -> bool {
     // a localized single-component path denotes a directory; using it as a
     // file name hands the OS a trailing slash, which is not mila's contract
@@ -1435,7 +1447,8 @@ fn exec(ctx: &mut RunCtx, w: &mut World, op: &Op) -> Step<()> {
                 }
                 (ReadExp::LocErr, Err(_)) => {}
                 (ReadExp::NotFound, Ok(b)) => {
-                    let owner = refine_owner(w, *h, path, *loc, owner, &|fs, p| matches!(fs.read(p, false), Err(LayeredFilesystemError::FileNotFound(_, _))));
+                    let refined = refine_owner(w, *h, path, *loc, owner, &|fs, p| matches!(fs.read(p, false), Err(LayeredFilesystemError::FileNotFound(_, _))));
+                    let owner = dual(ctx, refined, "C12");
                     return ctx.violation_for(owner, "return_value", "read|found_missing_file".to_string(), format!("read({:?}) returned {} bytes although no layer of the stack {:?} holds that file", path, b.len(), hc.stack));
                 }
                 (ReadExp::NotFound, Err(e)) => {
@@ -1450,7 +1463,7 @@ fn exec(ctx: &mut RunCtx, w: &mut World, op: &Op) -> Step<()> {
                         let c = model_path(&hc, path, *loc).unwrap_or_default();
                         let lower = hc.stack.iter().any(|l| matches!(w.m.layers[*l].node(&c), Some(Node::File(x)) if &x == b || classify_for(hc.game, &x) == Verdict::Conforming(b.clone())));
                         let d2 = d.clone();
-                        let owner = if open_fail { owner } else { refine_owner(w, *h, path, *loc, owner, &move |fs, p| matches!(fs.read(p, false), Ok(x) if x == d2)) };
+                        let owner = if open_fail { owner } else { dual(ctx, refine_owner(w, *h, path, *loc, owner, &move |fs, p| matches!(fs.read(p, false), Ok(x) if x == d2)), "C12") };
                         return ctx.violation_for(
                             owner,
                             "return_value",
@@ -1480,7 +1493,8 @@ fn exec(ctx: &mut RunCtx, w: &mut World, op: &Op) -> Step<()> {
                         w.faults += 1;
                     } else {
                         let d2 = match &exp { ReadExp::Bytes(d) => d.clone(), _ => Vec::new() };
-                        let owner = refine_owner(w, *h, path, *loc, owner, &move |fs, p| matches!(fs.read(p, false), Ok(x) if x == d2));
+                        let refined = refine_owner(w, *h, path, *loc, owner, &move |fs, p| matches!(fs.read(p, false), Ok(x) if x == d2));
+                        let owner = dual(ctx, refined, "C12");
                         return ctx.violation_for(owner, "return_value", "read|rejected_existing_file".to_string(), format!("read({:?}) failed: {}", path, e));
                     }
                 }
@@ -1532,11 +1546,13 @@ fn exec(ctx: &mut RunCtx, w: &mut World, op: &Op) -> Step<()> {
                 let owner = match &want {
                     Ok(wb) => {
                         let wb = *wb;
-                        refine_owner(w, *h, path, *loc, owner, &move |fs, p| {
+                        let refined = refine_owner(w, *h, path, *loc, owner, &move |fs, p| {
                             matches!(match k { Kind::File => fs.file_exists(p, false), Kind::Dir => fs.directory_exists(p, false), Kind::Any => fs.exists(p, false) }, Ok(x) if x == wb)
-                        })
+                        });
+                        dual(ctx, refined, "C12")
                     }
-                    Err(_) => owner,
+                    // an unsupported pair / degenerate path must be reported as an error by every operation
+                    Err(_) => "C14",
                 };
                 return ctx.violation_for(owner, "return_value", format!("{}|wrong_answer", api), format!("{}({:?}, loc={}) = {:?}, model {:?} (stack {:?})", api, path, loc, got.map_err(|e| e.to_string()), want, hc.stack));
             }
@@ -1566,7 +1582,8 @@ fn exec(ctx: &mut RunCtx, w: &mut World, op: &Op) -> Step<()> {
             ctx.outcome("resolve", if got.is_some() { "some" } else { "none" }, "");
             if got != want {
                 let want2 = want.clone();
-                let owner = refine_owner(w, *h, path, *loc, owner, &move |fs, p| fs.resolve(p, false) == want2);
+                let refined = refine_owner(w, *h, path, *loc, owner, &move |fs, p| fs.resolve(p, false) == want2);
+                let owner = dual(ctx, refined, "C12");
                 return ctx.violation_for(owner, "return_value", "resolve|wrong_answer".to_string(), format!("resolve({:?}, loc={}) = {:?}, model {:?}", path, loc, got, want));
             }
             Ok(())
@@ -1594,6 +1611,7 @@ fn exec(ctx: &mut RunCtx, w: &mut World, op: &Op) -> Step<()> {
                 Err(_) => false,
             };
             if got.is_ok() != want_ok {
+                let owner = if model_path(&hc, path, *loc).is_err() { "C14" } else { owner };
                 return ctx.violation_for(owner, "return_value", "create_dir|wrong_result".to_string(), format!("create_dir({:?}, loc={}) = {:?}, model says ok={}", path, loc, got.map_err(|e| e.to_string()), want_ok));
             }
             verify_disk(ctx, w, &[if want_ok { exp } else { before }], owner, "create_dir", Some(top), false)
@@ -1629,7 +1647,13 @@ fn exec(ctx: &mut RunCtx, w: &mut World, op: &Op) -> Step<()> {
                     if open_fail {
                         ctx.fault(if io_fired { "io_error_list" } else { "open_fail" });
                         w.faults += 1;
-                        // directory reads fail: a subset is all that can be required
+                        // a layer whose listing failed outright (injected EIO on that layer): "exactly the
+                        // entries found in any layer" cannot be answered; a silently partial union is wrong
+                        if io_fired && g != wv {
+                            let missing: Vec<&String> = wv.iter().filter(|x| !g.contains(x)).collect();
+                            return ctx.violation_for(owner, "listing", "list|partial_union_after_layer_error".to_string(), format!("list({:?}, {:?}): the listing of one layer failed, yet the call returned Ok without {:?}", dir, pat, missing));
+                        }
+                        // directory reads fail inside the glob walk: a subset is all that can be required
                         if let Some(x) = g.iter().find(|x| !wv.contains(x)) {
                             return ctx.violation_for(owner, "listing", "list|invented_entry".to_string(), format!("list({:?}, {:?}) under failing directory reads returned {:?}, which no layer holds", dir, pat, x));
                         }
@@ -1677,6 +1701,7 @@ fn exec(ctx: &mut RunCtx, w: &mut World, op: &Op) -> Step<()> {
                     }
                 }
                 (g, wv) => {
+                    let owner = if wv.is_err() { "C14" } else { owner };
                     return ctx.violation_for(owner, "listing", "list|wrong_result_kind".to_string(), format!("list({:?}, {:?}, loc={}) = {:?}, model {:?}", dir, pat, loc, g.as_ref().map_err(|e| e.to_string()), wv));
                 }
             }
@@ -1705,7 +1730,7 @@ fn exec(ctx: &mut RunCtx, w: &mut World, op: &Op) -> Step<()> {
                         let refined = refine_owner(w, *h, dir, *loc, owner, &move |fs, p| matches!(fs.subdirectories(p, false), Ok(x) if x == wv));
                         if refined == "C14" && ctx.prop == "C13" { "C13" } else { refined }
                     }
-                    Err(_) => owner,
+                    Err(_) => "C14",
                 };
                 return ctx.violation_for(owner, "listing", "subdirectories|wrong_entries".to_string(), format!("subdirectories({:?}, loc={}) = {:?}, model {:?} (stack {:?})", dir, loc, got.map_err(|e| e.to_string()), want, hc.stack));
             }
